@@ -1916,13 +1916,18 @@ impl XmlDocumentTypeDeclaration {
                                     XmlEntityValue::Character(v, _) => {
                                         char_from_char16(v)?;
                                     }
+                                    XmlEntityValue::Parameter(v) => {
+                                        // Not support parameter entity reference.
+                                        return Err(error::Error::InvalidData(format!("%{};", v)));
+                                    }
                                     _ => {}
                                 }
                             }
                             declaration.borrow_mut().push_child(entity);
                         }
-                        parser::DeclarationEntity::ParameterEntity(_) => {
-                            unimplemented!("Not support parameter entity reference.")
+                        parser::DeclarationEntity::ParameterEntity(v) => {
+                            // Not support parameter entity reference.
+                            return Err(error::Error::InvalidData(format!("%{};", v.name)));
                         }
                     },
                     parser::DeclarationMarkup::Notation(v) => {
@@ -1934,8 +1939,9 @@ impl XmlDocumentTypeDeclaration {
                         declaration.borrow_mut().push_child(pi);
                     }
                 },
-                parser::InternalSubset::ParameterEntityReference(_) => {
-                    unimplemented!("Not support parameter entity reference.")
+                parser::InternalSubset::ParameterEntityReference(v) => {
+                    // Not support parameter entity reference.
+                    return Err(error::Error::InvalidData(format!("%{};", v)));
                 }
                 parser::InternalSubset::Whitespace(_) => {
                     // drop
